@@ -134,6 +134,10 @@ func (h *histRun) exec(o hOp) (ans string, err error) {
 			if err == nil {
 				t = rt
 			}
+			// the caller reuses its slice (the context must have copied it)
+			for i := range fs {
+				fs[i] = zed.NewField("scribbled", zed.TypeNull)
+			}
 		case "arr":
 			t = c.LookupTypeArray(args[0])
 		case "set":
@@ -143,9 +147,17 @@ func (h *histRun) exec(o hOp) (ans string, err error) {
 		case "map":
 			t = c.LookupTypeMap(args[0], args[1])
 		case "union":
-			t = c.LookupTypeUnion(append([]zed.Type(nil), args...))
+			members := append([]zed.Type(nil), args...)
+			t = c.LookupTypeUnion(members)
+			for i := range members {
+				members[i] = zed.TypeNull
+			}
 		case "enum":
-			t = c.LookupTypeEnum(append([]string(nil), o.Names...))
+			syms := append([]string(nil), o.Names...)
+			t = c.LookupTypeEnum(syms)
+			for i := range syms {
+				syms[i] = "scribbled"
+			}
 		case "named":
 			nt, err := c.LookupTypeNamed(o.Names[0], args[0])
 			if err == nil {
@@ -372,6 +384,10 @@ func checkHist(c *Ctx, ops []hOp, replay bool) {
 				key := "C05:tvstable:" + histKey(ops, i)
 				if o.Kind == "byvalue" && o.Class != "canonical" && o.Class != "truncated" {
 					key = "C05:tvstable:byvalue-noncanonical:" + o.Class
+				} else if !bytes.Equal(old, zed.EncodeTypeValue(t)) {
+					// the value observed earlier was already the non-canonical one an earlier
+					// LookupByValue had stored; this op's internal LookupByValue replaced it again
+					key = "C05:tvstable:byvalue-noncanonical:replaced-by-" + histKey(ops, i)
 				}
 				c.Fail("oracle", key, fmt.Sprintf("LookupTypeValue(%s) returned %x before and %x after op %d %s", DescrType(t), old, now, i, o.sexp()), rp)
 				h.seenTV[t] = bytes.Clone(now)
@@ -860,6 +876,13 @@ func runConcurrent(c *Ctx) {
 		for i, m := 0, 10+c.Rng.Intn(30); i < m; i++ {
 			specs = append(specs, g.Gen(1+c.Rng.Intn(3)))
 		}
+		if it%2 == 0 {
+			// no name is bound to two different types in this batch: concurrent decoders cannot
+			// disturb each other's NameRefs, so every mismatch below is a violation
+			for _, s := range specs {
+				uniquifyNames(s)
+			}
+		}
 		workers := 2 + c.Rng.Intn(15)
 		perms := make([][]int, workers)
 		for w := range perms {
@@ -869,8 +892,62 @@ func runConcurrent(c *Ctx) {
 	}
 }
 
+// uniquifyNames makes the name of every named type a function of the type it names.
+func uniquifyNames(t *TSpec) {
+	for _, e := range t.Elems {
+		uniquifyNames(e)
+	}
+	for _, f := range t.Fields {
+		uniquifyNames(f.Type)
+	}
+	if t.Kind == "named" {
+		h := uint32(2166136261)
+		for _, b := range []byte(t.Elems[0].Descr()) {
+			h = (h ^ uint32(b)) * 16777619
+		}
+		if i := strings.Index(t.Name, "_"); i >= 0 {
+			t.Name = t.Name[:i]
+		}
+		t.Name = fmt.Sprintf("%s_%08x", t.Name, h)
+	}
+}
+
+// contendedNames: some type name is bound to two different types among the specs.
+func contendedNames(specs []*TSpec) bool {
+	bound := map[string]string{}
+	contended := false
+	var walk func(t *TSpec)
+	walk = func(t *TSpec) {
+		for _, e := range t.Elems {
+			walk(e)
+		}
+		for _, f := range t.Fields {
+			walk(f.Type)
+		}
+		if t.Kind == "named" {
+			d := t.Elems[0].Descr()
+			if prev, ok := bound[t.Name]; ok && prev != d {
+				contended = true
+			}
+			bound[t.Name] = d
+		}
+	}
+	for _, s := range specs {
+		walk(s)
+	}
+	return contended
+}
+
 func checkConcurrent(c *Ctx, specs []*TSpec, perms [][]int) {
 	rp := map[string]any{"check": "concurrent", "specs": specs, "perms": perms}
+	// With contended names the (known) NameRef race between concurrent decoders can make a
+	// decoder produce a different type; such mismatches are that finding, not a new one.
+	mismatchKey := func(k string) string {
+		if contendedNames(specs) {
+			return "C05:nameref:rebinding"
+		}
+		return k
+	}
 	c.Eval(fmt.Sprintf("concurrent:%d:%d:%s", len(specs), len(perms), specs[0].Descr()))
 	c.Stat(fmt.Sprintf("concurrent:workers:%d", len(perms)))
 	zc := zed.NewContext()
@@ -937,10 +1014,10 @@ func checkConcurrent(c *Ctx, specs []*TSpec, perms [][]int) {
 				first = t
 			}
 			if t != first {
-				c.Fail("oracle", "C05:concurrent:pointer", fmt.Sprintf("two goroutines obtained different pointers for %s", specs[i].Descr()), rp)
+				c.Fail("oracle", mismatchKey("C05:concurrent:pointer"), fmt.Sprintf("two goroutines obtained different pointers for %s", specs[i].Descr()), rp)
 			}
 			if fts[i] != nil && DescrType(t) != DescrType(fts[i]) {
-				c.Fail("oracle", "C05:concurrent:structure", fmt.Sprintf("asked for %s, got %s", DescrType(fts[i]), DescrType(t)), rp)
+				c.Fail("oracle", mismatchKey("C05:concurrent:structure"), fmt.Sprintf("asked for %s, got %s", DescrType(fts[i]), DescrType(t)), rp)
 			}
 		}
 	}
